@@ -26,6 +26,7 @@ import (
 	"github.com/acquirecloud/golibs/timeout"
 
 	"verifharness/internal/locksim"
+	"verifharness/internal/locktap"
 	"verifharness/internal/report"
 )
 
@@ -80,14 +81,16 @@ type tapEv struct {
 var errTap = errors.New("injected: storage unavailable")
 
 type tap struct {
-	inner    kvs.Storage
-	base     time.Time
-	mu       sync.Mutex
-	log      []tapEv
-	casN     int
-	failCas  map[int]bool // fail the k-th CasByVersion (1-based) without executing it
-	dead     atomic.Bool  // refuse everything (holder process died)
-	casDelay func() time.Duration
+	inner   kvs.Storage
+	base    time.Time
+	mu      sync.Mutex
+	log     []tapEv
+	casN    int
+	failCas map[int]bool // fail the k-th CasByVersion (1-based) without executing it
+	dead    atomic.Bool  // refuse everything (holder process died)
+	// honourCtx: like a network backend, refuse a call whose context is already done
+	honourCtx bool
+	casDelay  func() time.Duration
 	// holdAnswer: the answer of the k-th CasByVersion is kept in flight after the call was applied:
 	// applied is closed when the storage has executed it, the call returns when release is closed
 	holdAnswer int
@@ -124,6 +127,10 @@ func (t *tap) Create(ctx context.Context, r kvs.Record) (string, error) {
 		t.add(tapEv{Op: "Create", Call: c, Ret: t.now(), Err: "injected", Fault: "dead"})
 		return "", errTap
 	}
+	if t.honourCtx && ctx.Err() != nil {
+		t.add(tapEv{Op: "Create", Call: c, Ret: t.now(), Err: "ctx", Fault: "context-done"})
+		return "", ctx.Err()
+	}
 	v, err := t.inner.Create(ctx, r)
 	e := tapEv{Op: "Create", Call: c, Ret: t.now(), Err: cls(err), NewV: v}
 	if err == nil && r.ExpiresAt != nil {
@@ -150,6 +157,10 @@ func (t *tap) CasByVersion(ctx context.Context, r kvs.Record) (kvs.Record, error
 	}
 	if t.casDelay != nil {
 		time.Sleep(t.casDelay())
+	}
+	if t.honourCtx && ctx.Err() != nil {
+		t.add(tapEv{Op: "Cas", Call: c, Ret: t.now(), Err: "ctx", Ver: r.Version, Fault: "context-done"})
+		return kvs.Record{}, ctx.Err()
 	}
 	res, err := t.inner.CasByVersion(ctx, r)
 	if t.holdAnswer == k && t.applied != nil {
@@ -194,13 +205,14 @@ func (t *tap) ListKeys(ctx context.Context, p string) (iterable.Iterator[string]
 // ---------------------------------------------------------------- scenarios
 
 type scen struct {
-	Kind  string        `json:"kind"` // S1 S2 S3 S4
-	L     time.Duration `json:"lease"`
-	K     int           `json:"k,omitempty"`         // S2: which renewal fails
-	Ks    []int         `json:"ks,omitempty"`        // S2: several storage calls of the renewal chain fail (k-th CasByVersion each)
-	Phase time.Duration `json:"phase,omitempty"`     // S3: death phase within the renewal cycle; S4: hold time
-	Re    string        `json:"reacquire,omitempty"` // S4: "", "same", "other"
-	Seed  int64         `json:"seed"`
+	Kind    string        `json:"kind"` // S1 S2 S3 S4
+	L       time.Duration `json:"lease"`
+	K       int           `json:"k,omitempty"`         // S2: which renewal fails
+	Acquire string        `json:"acquire,omitempty"`   // S1: how the holder acquires: "" Lock, "ctx" LockWithCtx, "try" TryLock - the context is cancelled right after
+	Ks      []int         `json:"ks,omitempty"`        // S2: several storage calls of the renewal chain fail (k-th CasByVersion each)
+	Phase   time.Duration `json:"phase,omitempty"`     // S3: death phase within the renewal cycle; S4: hold time
+	Re      string        `json:"reacquire,omitempty"` // S4: "", "same", "other"
+	Seed    int64         `json:"seed"`
 }
 
 type finding struct {
@@ -218,7 +230,7 @@ type env struct {
 func newEnv() *env { return &env{base: time.Now(), inner: inmem.New(), key: "/lk/x"} }
 
 func (e *env) provider(L time.Duration) (*tap, dist.LockProvider) {
-	t := &tap{inner: e.inner, base: e.base, failCas: map[int]bool{}}
+	t := &tap{inner: e.inner, base: e.base, failCas: map[int]bool{}, honourCtx: true}
 	p := dist.NewKvsLockProvider(t, "/lk/")
 	if !dist.VerifSetLeaseTTL(p, L) {
 		panic("VerifSetLeaseTTL: unexpected provider type")
@@ -334,7 +346,24 @@ func holdScenario(sc scen, hold time.Duration) []finding {
 	var omu sync.Mutex
 	add := func(f finding) { omu.Lock(); out = append(out, f); omu.Unlock() }
 	var holders atomic.Int32
-	h.Lock()
+	switch sc.Acquire {
+	case "ctx": // the usual `ctx, cancel := ...; defer cancel()` around the acquisition
+		actx, acancel := context.WithTimeout(context.Background(), 5*time.Second)
+		if err := h.LockWithCtx(actx); err != nil {
+			acancel()
+			return []finding{{sig: "harness/acquire-failed", what: err.Error(), timeBound: true, w: sc}}
+		}
+		acancel()
+	case "try":
+		actx, acancel := context.WithCancel(context.Background())
+		if !h.TryLock(actx) {
+			acancel()
+			return []finding{{sig: "harness/acquire-failed", what: "TryLock on a free lock failed", timeBound: true, w: sc}}
+		}
+		acancel()
+	default:
+		h.Lock()
+	}
 	holders.Add(1)
 	stop := make(chan struct{})
 	ctx, cancel := context.WithCancel(context.Background())
@@ -686,6 +715,12 @@ func runScenario(sc scen) []finding {
 		return unlockScenario(sc)
 	case "S5":
 		return inflightScenario(sc)
+	case "S6":
+		o := locktap.UnlockVsFailedRenewal(sc.L, sc.K)
+		if o.Sig != "" {
+			return []finding{{sig: "lease/contender-acquired-while-held/unlock-vs-failed-renewal", what: o.What, timeBound: true, w: sc}}
+		}
+		return nil
 	}
 	return nil
 }
@@ -693,7 +728,7 @@ func runScenario(sc scen) []finding {
 func TestCheck(t *testing.T) {
 	run := report.New("C05", "fault_enumeration")
 	defer run.Finish(t)
-	run.Rule("real-clock scenarios with lease L set through a hook, one storage tap per provider: S1 hold for 6 L (20 L thorough) with a TryLock-spinning and a parked contender; S2 the k-th renewal CAS answered by an injected error without executing, for every k<=K, and sets of several failing calls in one tenure ({1,3,5}, {2,4,6}, {1,3,5,7}, {1,2}, {3,4}); during S1/S2 goroutines of the holder's process keep trying TryLock / LockWithCtx on the SAME (held) Locker object; S3 the holder's storage access dies at a phase of the renewal cycle and a parked contender must take over after the last lease ran out; S5 the answer of the k-th renewal is still in flight (applied by the storage) when the holder unlocks and the same Locker locks again, then the late answer arrives (variants: same Locker locks again / another provider's Locker holds next): the new tenure is held 3 L under the monitors; the order invariant of the timer queue (hook) is sampled throughout; S4 Unlock after hold times around multiples of L/2 with renewals delayed 0-5 ms (Unlock racing a renewal), then nothing / re-acquisition by the same / another Locker. In S1-S3 the caller that takes over after waiting holds for 3 L under the same monitors (its first lease must be a full one). Monitors over the tap log and probes of the record: exclusion, lease gap (each renewal completes before the lease it renews runs out), record present while held, renewal chain survives a transient error, take-over never before and at most L+2 s after the last lease ran out, at most one failing stale renewal after Unlock. distinct = distinct (scenario kind, L, k / phase / re-acquisition) instances run")
+	run.Rule("real-clock scenarios with lease L set through a hook, one storage tap per provider: S1 hold for 6 L (20 L thorough) with a TryLock-spinning and a parked contender, the holder acquiring through Lock, through LockWithCtx or through TryLock with a context that is cancelled right after the acquisition (the tap refuses calls whose context is done, as a network backend does); S6 a renewal answered with an error while the holder is unlocking, then another caller holds; S2 the k-th renewal CAS answered by an injected error without executing, for every k<=K, and sets of several failing calls in one tenure ({1,3,5}, {2,4,6}, {1,3,5,7}, {1,2}, {3,4}); during S1/S2 goroutines of the holder's process keep trying TryLock / LockWithCtx on the SAME (held) Locker object; S3 the holder's storage access dies at a phase of the renewal cycle and a parked contender must take over after the last lease ran out; S5 the answer of the k-th renewal is still in flight (applied by the storage) when the holder unlocks and the same Locker locks again, then the late answer arrives (variants: same Locker locks again / another provider's Locker holds next): the new tenure is held 3 L under the monitors; the order invariant of the timer queue (hook) is sampled throughout; S4 Unlock after hold times around multiples of L/2 with renewals delayed 0-5 ms (Unlock racing a renewal), then nothing / re-acquisition by the same / another Locker. In S1-S3 the caller that takes over after waiting holds for 3 L under the same monitors (its first lease must be a full one). Monitors over the tap log and probes of the record: exclusion, lease gap (each renewal completes before the lease it renews runs out), record present while held, renewal chain survives a transient error, take-over never before and at most L+2 s after the last lease ran out, at most one failing stale renewal after Unlock. distinct = distinct (scenario kind, L, k / phase / re-acquisition) instances run")
 	run.Assume("two-sided time bounds are guarded by a stall canary: a bound broken while the canary saw a stall above L/8 is repeated (up to 3 times) and only a repeat without stall counts")
 	run.Assume("a transient renewal failure is an attempt that was not applied (request lost); unacknowledged but applied renewals are not generated")
 
@@ -708,7 +743,7 @@ func TestCheck(t *testing.T) {
 	}
 	rng := rand.New(rand.NewSource(run.Seed()))
 	for _, L := range Ls {
-		list = append(list, scen{Kind: "S1", L: L})
+		list = append(list, scen{Kind: "S1", L: L}, scen{Kind: "S1", L: L, Acquire: "ctx"}, scen{Kind: "S1", L: L, Acquire: "try"})
 		if run.Thorough() {
 			list = append(list, scen{Kind: "S1long", L: L})
 		}
@@ -725,6 +760,9 @@ func TestCheck(t *testing.T) {
 		}
 		for k := 1; k <= run.Pick(3, 6); k++ {
 			list = append(list, scen{Kind: "S5", L: L, K: k}, scen{Kind: "S5", L: L, K: k, Re: "other"}, scen{Kind: "S5", L: L, K: k, Re: "otherholds"})
+		}
+		for k := 1; k <= 2; k++ {
+			list = append(list, scen{Kind: "S6", L: L, K: k})
 		}
 		for i := 0; i < run.Pick(45, 120); i++ {
 			mult := 1 + rng.Intn(4)
